@@ -641,8 +641,18 @@ def orc_sigma_forms(case):
     v = 0.5 + 2.5 * rs.rand(n_cond)
     v[0], v[-1] = 0.5, 3.0
     with_matrix = np.asarray(_call(m, a, b, np.diag(v)), float)
-    return _diff(_call(m, a, b, v.copy()), with_matrix, TOL_CG,
-                 f'{m}: sigma_k = variance vector {np.array2string(v, precision=4)} vs sigma_k = np.diag(vector)')
+    r = _diff(_call(m, a, b, v.copy()), with_matrix, TOL_CG,
+              f'{m}: sigma_k = variance vector {np.array2string(v, precision=4)} vs sigma_k = np.diag(vector)')
+    if r:
+        return r
+    # the whitened cosine / correlation do not depend on the SCALE of sigma_k (V scales by its square): the same unequal
+    # variances in other units (1e-6 .. 1e-12, 1e6) must give the same value -- no absolute threshold may decide what is "constant"
+    for sc in (1e-6, 1e-9, 1e-12, 1e6):
+        r = _diff(_call(m, a, b, v * sc), with_matrix, TOL_CG,
+                  f'{m}: sigma_k = {sc:g} * variance vector vs sigma_k = np.diag(vector) (scale of sigma_k must not matter)')
+        if r:
+            return r
+    return None
 
 
 @oracle('C03/bures')
